@@ -168,6 +168,7 @@ func C13(run *core.Run) {
 		core.Fatal("vacuity: only %d variant cells replayed", len(cells))
 	}
 	c13Codecs(run)
+	c13Encodings(run)
 	run.Finish()
 }
 
